@@ -83,4 +83,6 @@ class Prop(PropBase):
         shc = ["%d %d %d %d 7 4" % (wv, e, r, z) for wv in range(3) for e in range(3) for r in range(6) for z in range(4)]
         for line, cf in tg.short_histories(3 if tier == "quick" else 4, shc):
             cs.append(Case(line, sweep="short-histories", cfgs=cf))
+        for line, cf in tg.short_histories_b(2 if tier == "quick" else 3, shc):
+            cs.append(Case(line, sweep="short-histories-b", cfgs=cf))
         return cs
